@@ -18,7 +18,7 @@ func init() {
 			"(classify) Serve dispatches messages with a Request part to handlers and only request-less messages with an id to waiters; " +
 			"(async-dispatch) requests are handed to handleRequest by a go statement and the reply channel is buffered, so a handler may call back and a reply may arrive before its caller waits; " +
 			"(ctx-service) handleRequest and Local.Call put their own receiver under the context key that CtxService reads, and pass that context to the handler; " +
-			"(cancel) receive selects on ctx.Done() and returns ctx.Err(); (unique-id) request ids come from an atomic per-client counter; (no-block-under-lock) nothing blocks while Remote.mu is held; (reply-shape) a reply lacking its Response part is refused, not dereferenced; (reply-id) every return of Server.Handle carries the request id and handleRequest writes it (same rule as C15.reply-id). Round 2: a Client created on the fly must be kept in a field (ids would restart per call); (reply-id) every return of Server.Handle carries the request id.",
+			"(cancel) receive selects on ctx.Done() and returns ctx.Err(); (unique-id) request ids come from an atomic per-client counter; (no-block-under-lock) nothing blocks while Remote.mu is held; (reply-shape) a reply lacking its Response part is refused, not dereferenced; (reply-id) every return of Server.Handle carries the request id and handleRequest writes it (same rule as C15.reply-id). Round 2: a Client created on the fly must be kept in a field (ids would restart per call); (reply-id) every return of Server.Handle carries the request id. Round 5: (writer-stateless) no Codec.WriteMessage keeps unguarded state between calls.",
 		NotDecided: []string{"not decided: exactly-once handling and delivery orders under concrete schedules; behaviour of PendingLimit eviction under load; fairness"},
 	}
 }
@@ -282,6 +282,36 @@ func runC14(p *an.Prog, r *an.Run, tier string) {
 	}
 	// the channel returned is the entry's channel (existing or the one just stored)
 	r.Check(len(bad) == 0, "async-dispatch", an.FuncName(gpc), gpc.Pos(), "one buffered channel per id", "%s", strings.Join(bad, "; "))
+
+	// ---- writer-stateless: Remote writes to the connection from several goroutines (Call, and every request handler
+	// answering) without a lock of its own, so a codec's WriteMessage either keeps nothing between calls or guards what it
+	// keeps with its own mutex: a scratch buffer shared by two writers sends one caller's bytes twice and the other's never
+	if ci := p.Iface("jsonrpc2", "Codec"); ci != nil {
+		nW := 0
+		for _, cd := range p.Implementations(ci) {
+			wm := p.MethodOf(cd, "WriteMessage")
+			if wm == nil || len(wm.Blocks) == 0 || isTestDoublePkg(wm) || p.IsTestFunc(wm) {
+				continue
+			}
+			nW++
+			r.Analysed(an.FuncName(wm))
+			var wb []string
+			for _, fn := range regionFuncs(p, wm) {
+				li := an.Locksets(fn, nil)
+				for _, w := range writesOf(fn) {
+					if len(w.Fields) == 0 || len(fn.Params) == 0 || w.Root != ssa.Value(fn.Params[0]) || fn.Signature.Recv() == nil {
+						continue
+					}
+					if len(li.Before[w.In]) > 0 {
+						continue
+					}
+					wb = append(wb, w.Kind+" to "+fn.Params[0].Name()+w.Path+" in "+an.FuncName(fn)+" at "+p.Pos(w.In.Pos())+" with no mutex of the codec held")
+				}
+			}
+			r.Check(len(wb) == 0, "writer-stateless", an.FuncName(wm), wm.Pos(), "WriteMessage keeps no unguarded state between calls", "concurrent writers share what this codec keeps between calls: %s", strings.Join(dedup(wb), "; "))
+		}
+		r.Floor("codec-writers", nW, 3)
+	}
 
 	// ---- ctx-service
 	bad = nil
